@@ -16,7 +16,9 @@ RULE = ("Every shipped instance is visited (Hill 0..999, Shekel 0..999, Grishagi
         "point re-evaluated by the real code; 1-D families: 1e6-point grid + tabulated Lipschitz constant = "
         "certificate up to L*h/2; GKLS: generated points in every ball and outside; StronginC3: feasible set only; "
         "(c) bounded descent from the declared point must end within 0.5% of the side per coordinate at a value not "
-        "above the best found by more than the (b) tolerance. Non-trivial: an instance with a second local minimum "
+        "above the best found by more than the (b) tolerance. Before an instance is built its predecessor in the family and the instance itself are "
+        "built and evaluated once in the same process (a sweep over the family), so a declaration that depends on "
+        "construction history is seen. Non-trivial: an instance with a second local minimum "
         "within 10% of the value range of the global one. Distinct by construction (one case per instance).")
 ASSUMPTIONS = [
     "in two or more dimensions the global minimum is searched, not certified (grid resolution: Grishagin 1000^2 / "
